@@ -3,7 +3,7 @@
   This file is the property, executable; it mentions no buffer, offset or capacity.
 -/
 import NngModel.Base.Bytes
-import NngModel.Generated.Consts
+import NngModel.Generated.Base
 
 namespace Nng.MsgSpec
 
